@@ -63,6 +63,8 @@ TEMPLATES = [
     ["combined_scenario_run", "run_sim"],
     ["run_sim", "sampled_sims_no_uncertainty"],
     ["build", "pickle", "combined_scenario_run", "process_copy", "process_orig"],
+    ["program_scenario_run", "run_sim", "program_scenario_run"],
+    ["build", "program_scenario_run", "process_orig", "program_scenario_run"],
 ]
 
 _CORPUS = None
@@ -163,6 +165,15 @@ def make_config(at, P, variant):
     return parset, progset, instr, scen
 
 
+def make_program_scenario(at, instr, variant):
+    """The scenario-object form of a budget / coverage configuration (None for the other variants)."""
+    if variant == "budget":
+        return at.BudgetScenario(name="budget scenario", alloc=instr.alloc, start_year=instr.start_year)
+    if variant == "coverage":
+        return at.CoverageScenario(name="coverage scenario", coverage=instr.coverage, start_year=instr.start_year)
+    return None
+
+
 def compute_reference_table(names):
     """Digest of every (project, variant) run alone.  Executed in the isolated reference interpreter."""
     import atomica as at
@@ -180,6 +191,11 @@ def compute_reference_table(names):
                 parset, progset, instr, scen = make_config(at, P, variant)
                 res = P.run_sim(parset, progset, instr)
                 table[f"{name}/{variant}"] = digest_result(res)
+                scen2 = make_program_scenario(at, instr, variant)
+                if scen2 is not None:
+                    P2 = C[name].project()
+                    parset2, progset2, instr2, _ = make_config(at, P2, variant)
+                    table[f"{name}/{variant}@scenario"] = digest_result(make_program_scenario(at, instr2, variant).run(P2, parset2, progset2, store_results=False))
             except Exception as e:
                 table[f"{name}/{variant}"] = f"ERROR:{type(e).__name__}:{str(e)[:100]}"
     return table
@@ -269,8 +285,13 @@ def run(ch, idx, tier):
         if variant == "parscen":
             inputs["base_parset"] = P.parsets[0]
             inputs["scenario"] = scen
+        prog_scen = make_program_scenario(at, instr, variant) if instr is not None else None
+        if prog_scen is not None:
+            inputs["program_scenario"] = prog_scen
+        else:
+            tpl = [op if op != "program_scenario_run" else "run_sim" for op in tpl]
         snap = {k2: flatten(v) for k2, v in inputs.items()}
-        clients.append({"k": k, "name": name, "variant": variant, "template": tpl, "P": P, "parset": parset, "progset": progset, "instr": instr, "scen": scen, "inputs": inputs, "snap": snap, "ref": _REF[f"{name}/{variant}"], "results": 0})
+        clients.append({"prog_scen": prog_scen, "scen_ref": _REF.get(f"{name}/{variant}@scenario"), "k": k, "name": name, "variant": variant, "template": tpl, "P": P, "parset": parset, "progset": progset, "instr": instr, "scen": scen, "inputs": inputs, "snap": snap, "ref": _REF[f"{name}/{variant}"], "results": 0})
 
     # ---- pre-emption inside the integration ----------------------------------------------
     baton_holder = {}
@@ -379,16 +400,17 @@ def run(ch, idx, tier):
                 violate("input_modified", f"{k2} by {op}", {"client": c["k"], "project": c["name"], "variant": c["variant"], "op": op, "diff": diff_tokens(c["snap"][k2], now, 4)})
                 c["snap"][k2] = now  # report once per change
 
-    def check_result(c, res, op):
+    def check_result(c, res, op, ref=None):
         d = digest_result(res)
+        ref_ = ref if ref is not None else c["ref"]
         c["results"] += 1
         bump("evaluations")
         bump("model_years_x1000", int(1000 * (res.t[-1] - res.t[0])))
         oplog.append([c["k"], op, d])
-        if d != c["ref"]:
+        if d != ref_:
             # site = the kind of operation that produced the result (the full path of operations is in the detail)
             kind_ = op.split("+")[-1] if "+" in op else op
-            violate("output_differs_from_isolated_run", kind_, {"client": c["k"], "project": c["name"], "variant": c["variant"], "op": op, "template": c["template"], "digest": d, "reference": c["ref"], "n_clients": K})
+            violate("output_differs_from_isolated_run", kind_, {"client": c["k"], "project": c["name"], "variant": c["variant"], "op": op, "template": c["template"], "digest": d, "reference": ref_, "n_clients": K})
 
     def body(c, bc):
         b = baton_holder["b"]
@@ -477,6 +499,12 @@ def run(ch, idx, tier):
             elif op == "scenario_run":
                 R = c["scen"].run(P, P.parsets[0], store_results=False)
                 check_result(c, R, "Scenario.run")
+            elif op == "program_scenario_run":
+                if edited.get(c["k"]) or not c["scen_ref"] or c["scen_ref"].startswith("ERROR"):
+                    continue
+                R = c["prog_scen"].run(P, parset, progset, store_results=False)
+                bump("probe:program_scenario_object_run")
+                check_result(c, R, type(c["prog_scen"]).__name__ + ".run", ref=c["scen_ref"])
             if op == "caller_edits_inputs":
                 # the edit is deliberate: re-snapshot what the caller now owns (later operations must leave THAT unchanged)
                 for k2 in ("parset", "progset", "instructions"):
